@@ -477,7 +477,9 @@ def joe_evidence(ctx, agg, rule, assumptions):
         "event order in a trace agrees with happens-before by the hook discipline (release before, acquire after; rendezvous logged by the receiver)",
         "subscribers' Send / Flush return",
         "steered_behaviours: behaviours of JoeMC.tla drawn by `tlc -simulate` (JoeSched.tla) are replayed against the real Joe with every hook point as a gate; "
-        "steering is best effort (stats.Stalled = behaviours that fell back to free running where Go's select had a choice the behaviour had made) and never a "
+        "steering is best effort (stats.Exact = behaviours the real code followed step by step in the behaviour's order to their end; Stalled = behaviours that fell back to free "
+        "running; the rest took other steps somewhere - mostly behaviours in which Joe still receives after the hook in front of close(j.done), which the real code only "
+        "does under another order of the same events) and never a "
         "verdict by itself: what the real Joe did is validated by JoeTrace.tla like every other trace",
     ] + list(assumptions))
 
